@@ -150,4 +150,10 @@ theorem at_fraction2_whole (c : Curve α (V2 α)) (f : α) (hb : c.blend = true)
     GenRs.at_fraction2 c f = c.atFraction f := by
   unfold GenRs.at_fraction2 Curve.atFraction
   exact at_length2_whole c _ hb hn
+
+/-- construction: the tolerance de-duplication of `Curve2::from_points` / `Curve3::from_points`
+    (`dedup_by(|a, b| dist(a, b) <= tol)`: an element is dropped when it is within `tol` — in the Euclidean
+    distance — of the last retained one) is the model's `dedupTolPts`, the first step of `Curve.fromPoints` -/
+theorem from_points_dedup2_eq (pts : List (V2 α)) (tol : α) : GenRs.from_points_dedup2 pts tol = dedupTolPts tol pts := rfl
+theorem from_points_dedup3_eq (pts : List (V3 α)) (tol : α) : GenRs.from_points_dedup3 pts tol = dedupTolPts tol pts := rfl
 end C01T
